@@ -1,7 +1,9 @@
 //! Correspondence harness for the bita verification: generates cases, runs the implementation built
 //! from /repo's working tree, writes model inputs + implementation outputs + statistics + oracle findings.
+mod archive;
 mod chunking;
 mod clone;
+mod pb;
 mod memfile;
 mod util;
 
@@ -20,6 +22,7 @@ fn main() {
         let r = match line.split(' ').next().unwrap_or("") {
             "stream" | "stream2" | "resync" | "hash" | "f6" => chunking::replay(&line),
             "planner" | "clone" => clone::replay(&line),
+            "protodec" | "tryinit" | "compress" => archive::replay(&line),
             k => Err(format!("unknown replay kind {}", k)),
         };
         match r {
@@ -52,6 +55,10 @@ fn main() {
         "exh" => chunking::suite_exhaustive(&out, seed, thorough, &mut st),
         "resync" => chunking::suite_resync(&out, seed, thorough, &mut st),
         "planner" => clone::suite_planner(&out, seed, thorough, &mut st),
+        "protoenc" => archive::suite_protoenc(&out, seed, thorough, &mut st),
+        "protodec" => archive::suite_protodec(&out, seed, thorough, &mut st),
+        "tryinit" => archive::suite_tryinit(&out, seed, thorough, &mut st),
+        "compress" => archive::suite_compress(&out, seed, thorough, &mut st),
         "clone" => clone::suite_clone(&out, seed, thorough, &mut st),
         _ => {
             eprintln!("unknown suite {}", suite);
